@@ -1,3 +1,1 @@
 package vg
-
-func c12System(c *RunCtx) {}
